@@ -12,6 +12,9 @@ for sid in ids:
         continue
     meta = json.load(open(os.path.join(d, 'meta.json')))
     pid = meta['property']
+    if meta.get('obsolete'):
+        rows.append((sid, pid, 'OBSOLETE', meta.get('obsolete_reason', '')[:80]))
+        continue
     also = meta.get('also_check', [])
     tmp = tempfile.mkdtemp(prefix='seedrun_', dir='/tmp')
     try:
